@@ -307,6 +307,33 @@ func RuleG1(c *Ctx) {
 			if nAcc == 0 {
 				continue
 			}
+			// re-entrancy: while holding the lock, no call to a method of the same receiver that
+			// takes the lock again (sync.RWMutex is not re-entrant: a second RLock blocks behind a
+			// waiting writer, a Lock blocks behind our own lock)
+			recvObj := recvOf(fd)
+			ast.Inspect(fd.Body, func(n ast.Node) bool {
+				call, ok := n.(*ast.CallExpr)
+				if !ok {
+					return true
+				}
+				g := Callee(info, call)
+				if g == nil || recvNamedOf(g) != lt.named {
+					return true
+				}
+				rid, ok := ast.Unparen(Recv(call)).(*ast.Ident)
+				if !ok || recvObj == nil || info.ObjectOf(rid) != recvObj {
+					return true
+				}
+				gd := c.P.Decl(g)
+				if gd == nil || lockKindOf(info, gd, lt.mx) == "" {
+					return true
+				}
+				if held(call, false) {
+					unlocked = append(unlocked, fmt.Sprintf("calls %s (which locks again) at %s while holding the lock: self-deadlock as soon as a writer is waiting", g.Name(), c.P.Pos(call.Pos())))
+					nAcc++
+				}
+				return true
+			})
 			key := lt.named.Obj().Name() + "." + m.Name()
 			pos := c.P.Pos(fd.Pos())
 			if len(unlocked) == 0 {
